@@ -41,6 +41,8 @@ def BOUNDS(tier):
 def tasks(tier, seed):
     N, NF = (10, 7) if tier == 'quick' else (13, 10)
     out = [{'n': n, 'level': 'func'} for n in range(1, N + 1)]
+    # the generator hands first-side lists over as numpy arrays (fresh scalar object on every element access)
+    out += [{'n': n, 'level': 'func', 'np_entries': True} for n in range(1, min(N, 8) + 1)]
     out += [{'n': n, 'level': lv} for n in range(1, NF + 1) for lv in ('hr', 'spa')]
     # second engine: CrossHair (crosshair-tool) on the same round trip, fixed n, symbolic booleans
     out += [{'n': n, 'level': 'crosshair'} for n in ((4, 6) if tier == 'quick' else (3, 5, 6, 8))]
@@ -183,11 +185,13 @@ def crosshair_task(task, res):
     return res
 
 
-def roundtrip(ns, n, level, ties):
+def roundtrip(ns, n, level, ties, np_entries=False):
     """the code under test: writer -> (file) -> reader; ties symbolic or concrete"""
     ents = entries(n)
     if level == 'func':
-        toks = ns.gshared.create_string_pref(list(ents), ties)
+        import numpy as _np
+        toks = ns.gshared.create_string_pref(_np.array(ents) if np_entries else list(ents), ties)
+        toks = [str(t) for t in toks]
         simp, ranks = ns.fileIO._get_simple_pref_list_and_ranks(list(toks))
         return {'tokens': toks, 'lists': [(simp, ranks)]}
     d = tempfile.mkdtemp(prefix='vf_c13_')
@@ -252,7 +256,7 @@ def run_task(task):
             e.assume((t == 0) | (t == 1))
         tt = [t.t for t in ties]
         e.notes['ties'] = tt
-        return roundtrip(ns, n, level, ties)
+        return roundtrip(ns, n, level, ties, np_entries=task.get('np_entries', False))
 
     E = S.Engine(max_paths=20000, timeout=900)
     paths = E.explore(body)
@@ -287,7 +291,7 @@ def run_task(task):
             else:
                 tv = [m.eval(t, model_completion=True).as_long() for t in tt]
                 res['cex'].append({'tag': 'roundtrip/%s' % name.split(':')[0], 'what': name,
-                                   'data': {'n': n, 'level': level, 'ties': tv}})
+                                   'data': {'n': n, 'level': level, 'ties': tv, 'np_entries': task.get('np_entries', False)}})
     res['sample'] = {'n': n, 'level': level, 'paths': len(paths),
                      'example_tokens': paths[0].result['tokens'] if paths and paths[0].exc is None else None}
     return res
@@ -315,7 +319,7 @@ def replay(cex):
     if level not in ('func', 'hr', 'spa'):
         level = 'func'
     try:
-        out = roundtrip(ns, n, level, np.array(ties))
+        out = roundtrip(ns, n, level, np.array(ties), np_entries=d.get('np_entries', False))
     except Exception as e:  # noqa
         return True, 'entries %s ties %s (%s level): real functions raised %r' % (ents, ties, level, e)
     exp_ranks, r = [], 1
